@@ -30,6 +30,7 @@ def C16_full : Prop :=
   (∀ (r : Registry) (h : Nat) (v : V), ((r.insert h v).remove h).1 = some v) ∧
   (∀ (r : Registry) (h h' : Nat) (v : V), h' ≠ h → ((r.insert h v).remove h).2.lookup h' = r.lookup h') ∧
   (∀ (r : Registry) (h : Nat) (v : V), r.lookup h = none → ((r.insert h v).remove h).2.lookup h = none) ∧
+  (∀ (ops : List RegOp), (runReg ops Registry.empty).2 = (runMap ops (fun _ => none)).2) ∧
   -- (4) tojson output never contains < > & '   (for every text serde_json could have produced)
   (∀ (text : List Char) (c : Char), c ∈ tojson text → c ≠ '<' ∧ c ≠ '>' ∧ c ≠ '&' ∧ c ≠ '\'') ∧
   -- (5) every string, escaped by serde_json and post-processed by tojson (or not: auto-escaping),
@@ -135,6 +136,25 @@ theorem registry_no_residue (r : Registry) (h : Nat) (v : V) (hfresh : r.lookup 
   remove_insert_gone r h v hfresh
 
 example : exState.reg.lookup 7 = some .undefined ∧ exState.reg.lookup 1 = none := ⟨by rfl, by rfl⟩
+
+/-- The two-tier store (inline slot + overflow map; the fast-path condition of `insert` is
+regenerated from the source as `MJ.Gen.registryInsertFastPath`) refines a finite map: for every
+sequence of inserts and removes — any number of handles alive at once, resolved in any order, twice,
+or never — each `remove` returns exactly what the map holds for that handle. -/
+theorem registry_refines_map (ops : List RegOp) :
+    (runReg ops Registry.empty).2 = (runMap ops (fun _ => none)).2 :=
+  registry_refines_map_from_empty ops
+
+/-- the general form: from any reachable registry, with the final states related as well -/
+theorem registry_refines_map_from (ops : List RegOp) (r : Registry) (m : Nat → Option V) (hinv : r.Inv)
+    (hm : ∀ k, r.lookup k = m k) :
+    (runReg ops r).2 = (runMap ops m).2 ∧ (∀ k, (runReg ops r).1.lookup k = (runMap ops m).1 k) :=
+  let h := MJ.Serde.registry_refines_map ops r m hinv hm
+  ⟨h.1, h.2.1⟩
+
+/-- three handles alive at once (what serde's buffering does), resolved first-to-last: all come back -/
+example : (runReg [.ins 1 (.str "<b>".toList true), .ins 2 .undefined, .ins 3 (.obj 9), .rem 1, .rem 2, .rem 3, .rem 2]
+    Registry.empty).2 = [some (.str "<b>".toList true), some .undefined, some (.obj 9), none] := by rfl
 
 /-! ## (4) alphabet -/
 
@@ -331,7 +351,7 @@ theorem source_tie :
 /-- the full statement holds for the model -/
 theorem c16_full : C16_full :=
   ⟨de_ser_roundtrip, value_embedding_identity, value_embedding_in_context, registry_remove_insert,
-   registry_frame, registry_no_residue, tojson_alphabet, tojson_string_parses_back,
+   registry_frame, registry_no_residue, registry_refines_map, tojson_alphabet, tojson_string_parses_back,
    autoescape_string_parses_back, tojson_parses_back, autoescape_parses_back,
    tojson_parses_back_all, de_total_classification, serialize_contract, engine_json_end_to_end,
    serialization_flag_restored⟩
